@@ -42,7 +42,7 @@ static std::string do_rsess(std::istringstream& is) {
     std::string path = TMPD + "/vblf-s" + std::to_string(getpid()) + ".blf";
     { std::ofstream f(path, std::ios::binary); f.write(reinterpret_cast<const char*>(b.data()), std::streamsize(b.size())); }
     vshim::configure(o.choices, o.policy, o.seed, getenv("VERIF_MAXSTEPS") ? atol(getenv("VERIF_MAXSTEPS")) : 400000);
-    uint64_t hsh = 1469598103934665603ULL; long n = 0; bool nullseen = false; bool good = false, eof = false; uint32_t cnt = 0;
+    uint64_t hsh = 1469598103934665603ULL; long n = 0; bool nullseen = false; bool good = false, eof = false; uint32_t cnt = 0; long held = 0, heldBytes = 0;
     {
         File f;
         try { f.open(path.c_str(), std::ios_base::in); } catch (Exception&) { unlink(path.c_str()); return "sched outcome=openexc"; }
@@ -54,11 +54,15 @@ static std::string do_rsess(std::istringstream& is) {
             delete ob; n++;
         }
         good = f.good(); eof = f.eof();
+        // what the in-memory stream still holds when the application has seen the end (one thread runs at a time under this scheduler,
+        // and none is suspended inside an update of the list): containers, bytes
+        held = long(f.m_uncompressedFile.m_data.size()); for (auto& lc : f.m_uncompressedFile.m_data) if (lc) heldBytes += long(lc->uncompressedFile.size());
         f.close();
         cnt = f.currentObjectCount;
     }
     unlink(path.c_str());
     return "sched outcome=done steps=" + std::to_string(vshim::steps()) + " n=" + std::to_string(n) + " null=" + (nullseen ? "1" : "0") + " good=" + (good ? "1" : "0") + " eof=" + (eof ? "1" : "0") +
+           " held=" + std::to_string(held) + " heldbytes=" + std::to_string(heldBytes) +
            " count=" + std::to_string(cnt) + " hash=" + std::to_string(hsh) + " trace=" + vshim::trace();
 }
 
